@@ -21,8 +21,12 @@ def generate(rng, tier) -> dict:
     nints, nbands, nbins = rng.randint(1, 6), rng.randint(1, 6), rng.choice([2, 4, 8, 16, 32, rng.randint(2, 32)])
     fold_dm = rng.choice([0.0, 10.0, 56.75])
     fold_p = rng.choice([0.1, 0.0333, 1.2345])
+    long_obs = rng.random() < 0.3  # an hour instead of 100 s: tiny relative changes then still move bins
+    eps = (2e-6, 5e-6, 9e-6) if long_obs else (1e-4, 3.3e-4, 7e-4)
     dms = [fold_dm, fold_dm + 0.5, fold_dm + 1.0, fold_dm - 0.75, fold_dm + 3.0, fold_dm + 7.25]
-    ps = [fold_p, fold_p * (1 + 1e-4), fold_p * (1 - 1e-4), fold_p * (1 + 3.3e-4), fold_p * (1 - 7e-4)]
+    if long_obs and fold_dm > 0:
+        dms += [fold_dm * (1 + 4e-6), fold_dm * (1 - 8e-6)]
+    ps = [fold_p, fold_p * (1 + eps[0]), fold_p * (1 - eps[0]), fold_p * (1 + eps[1]), fold_p * (1 - eps[2])]
     mix = rng.choice(["dm", "period", "mixed"])
     ops = []
     for _ in range(rng.randint(1, 12 if tier == "quick" else 30)):
@@ -39,7 +43,7 @@ def generate(rng, tier) -> dict:
             v = round(fold_dm + rng.uniform(-5, 20), 3) if kind == "dm" else fold_p * (1 + round(rng.uniform(-1e-3, 1e-3), 7))
         ops.append({"k": kind, "v": v})
     return {"nints": nints, "nbands": nbands, "nbins": nbins, "nchans_per_band": rng.choice([1, 2, 4]),
-            "layout": rng.choice(["C", "C", "C", "T", "F", "slice"]),
+            "layout": rng.choice(["C", "C", "C", "T", "F", "slice"]), "nsamples": 3600000 if long_obs else 100000,
             "fold_dm": fold_dm, "fold_period": fold_p, "ops": ops}
 
 
@@ -63,20 +67,23 @@ def make_cube(sc, ctx, layout="C"):
 
     nchans = sc["nbands"] * sc["nchans_per_band"]
     hdr = base_header(ctx, 1).new_header({"nchans": nchans, "fch1": 400.0, "foff": -80.0 / nchans, "tsamp": 0.001,
-                                          "nsamples": 100000, "nbits": 32})
+                                          "nsamples": int(sc.get("nsamples", 100000)), "nbits": 32})
     ni, nb, nbin = sc["nints"], sc["nbands"], sc["nbins"]
     data = np.arange(ni * nb * nbin, dtype=np.float32).reshape(ni, nb, nbin)
+    pristine = data.copy()  # returned as the reference: never shares memory with the cube
     if layout == "T":
-        arr = np.ascontiguousarray(data.transpose(1, 0, 2)).transpose(1, 0, 2)
+        arr = np.array(data.transpose(1, 0, 2), order="C", copy=True).transpose(1, 0, 2)
     elif layout == "F":
-        arr = np.asfortranarray(data)
+        arr = np.array(data, order="F", copy=True)
     elif layout == "slice":
         big = np.full((ni, nb + 2, nbin), -1, dtype=np.float32)
         big[:, 1 : 1 + nb] = data
         arr = big[:, 1 : 1 + nb]
     else:
         arr = data.copy()
-    return FoldedData(arr, hdr, sc["fold_period"], sc["fold_dm"], 0), data
+    if np.shares_memory(arr, pristine):
+        arr = arr.copy()
+    return FoldedData(arr, hdr, sc["fold_period"], sc["fold_dm"], 0), pristine
 
 
 def rotations(cur, orig):
@@ -90,6 +97,32 @@ def rotations(cur, orig):
                 return None
             out[i, j] = int(pos[0]) % nb
     return out
+
+
+def check_implied_shift(sc, cube, rot, op, mk, ctx) -> None:
+    """Absolute, deliberately tolerant model of "the shift implied by the final value relative to the
+    folding value" for single-parameter histories: the real-valued drift in bins from the dispersion law
+    (sub-band centre frequencies, bin width period/nbins) or from the linear period drift across
+    sub-integrations; the observed rotation must be within 1 bin of it (any rounding convention passes)."""
+    nints, nbands, nbins = sc["nints"], sc["nbands"], sc["nbins"]
+    hdr = cube.header
+    if op["k"] == "dm":
+        chan_width = hdr.foff * hdr.nchans / nbands
+        freqs = np.arange(nbands, dtype=np.float64) * chan_width + hdr.fch1
+        drift = 4.148808e3 * (op["v"] - sc["fold_dm"]) * (freqs ** -2 - float(hdr.fch1) ** -2) / (sc["fold_period"] / nbins)
+        model = -drift[None, :] * np.ones((nints, 1))
+    else:
+        dbins = (op["v"] / sc["fold_period"] - 1) * hdr.tobs * nbins / sc["fold_period"]
+        drift = np.arange(nints, dtype=np.float64) * dbins / nints
+        model = -drift[:, None] * np.ones((1, nbands))
+    diff = (rot - model) % nbins
+    dist = np.minimum(diff, nbins - diff)
+    if nbins >= 4 and np.any(dist > 1.0 + 1e-3):
+        i, j = np.argwhere(dist > 1.0 + 1e-3)[0]
+        raise mk("rotation-differs-from-the-implied-shift",
+                 f"profile (subint {i}, band {j}) is rotated by {int(rot[i, j])} bins; the {op['k']} change implies {model[i, j] % nbins:.2f} (mod {nbins})")
+    if np.any(np.abs(model) >= 1.5):
+        ctx.probe("implied-shift>=1.5-bins-checked")
 
 
 def execute(sc, ctx) -> None:
@@ -143,6 +176,7 @@ def execute(sc, ctx) -> None:
             if not np.array_equal(cube.data, orig):
                 raise mk("return-to-fold-does-not-restore", f"rotations left: {rot.tolist()}")
         if single:
+            check_implied_shift(sc, cube, rot, op, mk, ctx)
             fresh, _ = make_cube(sc, ctx)
             if op["k"] == "dm":
                 fresh.update_dm(op["v"])
